@@ -25,6 +25,19 @@ META = {
 
 THEOREMS = [
     "C02_spec_precedence",
+    "C02_write_meaning",
+    "C02_no_fusion",
+    "C02_cell_write_meaning",
+    "C02_ops_surface",
+    "C02_ops_cell",
+    "C02_ops_and",
+    "C02_ops_or",
+    "C02_ops_invert",
+    "C02_ops_iand",
+    "C02_ops_ior",
+    "C02_history",
+    "C02_history_write",
+    "C02_parentheses_matter",
 ]
 
 CORPUS_DIR = os.path.join(VERIF, "corpus", "C02")
@@ -145,6 +158,9 @@ def compare(case, impl, den, model):
             return "U-geometry-ops (operators vs HalfSpace.__and__/__or__/__invert__/__iand__/__ior__)", {
                 "step": i, "op": op["k"], "impl": si["str"], "model": sm["str"]}
         if op["k"] == "write":
+            if sm.get("ready") is not True:
+                return "C02_update_ready (hypothesis `ready` of C02_write_meaning does not hold of the model's tree after updateValues)", {
+                    "step": i, "model": sm["text"]}
             d = den[("write", i)]
             ti = d.get("toks") if d.get("ok") or "toks" in d else None
             # comments are compared by number of comment-carrying lines (a second "$" on a line is inside the first)
